@@ -64,7 +64,9 @@ func c08Plants() []plant {
 				}
 			}
 			opt := []string{"", ",flat", ",intern"}[r.IntN(3)]
-			fs = append(fs, sf("Z", tInt, fmt.Sprintf(`plenc:"%d%s"`, idx, opt)))
+			// the same number, not always the same text
+			spell := []string{"%d", "%d", "%d", "0%d", "+%d", "00%d"}[r.IntN(6)]
+			fs = append(fs, sf("Z", tInt, fmt.Sprintf(`plenc:"`+spell+`%s"`, idx, opt)))
 			return structOf(fs...)
 		}},
 		{"option-without-codec", true, func(r *rand.Rand) reflect.Type {
